@@ -141,3 +141,4 @@ def check(ctx):
     # a read path that seeks past the end extends the file: the structural preconditions for staying inside the table
     import_rules(ctx, "c04", {"scan-compensation", "layout-agreement"})
     import_rules(ctx, "c07", {"stored-count-wins"})
+    import_rules(ctx, "c17", {"slot-walk"})
